@@ -1086,3 +1086,8 @@ package core
 //@   ensures[C12.lin_Add_one_critical_section] acquired(s.RWMutex) <= old(acquired(s.RWMutex)) + 1
 //@ func (*LinearState).Rem
 //@   ensures[C12.lin_Rem_one_critical_section] acquired(s.RWMutex) <= old(acquired(s.RWMutex)) + 1
+
+// C14 (D27 repaired): the deferred handler that recovers the watchdog's halt hands an error back to RunJavascript's caller
+//@ func RunJavascript$12
+//@   inline-ok
+//@   assert[C14.timeout_is_reported_as_an_error] at "return": err != nil && result == nil
